@@ -476,7 +476,10 @@ def main():
         f, stats = step_correspondence(prop, tier, seed)
         failures += f
     corr_obl = len(prop["jobs"]) + 1  # batches + kernel cross-check
-    corr_ok = corr_obl - len({f.what for f in failures if f.kind in ("correspondence", "oracle", "kernel_crosscheck")})
+    # failures inside a listed known-finding class do not count against the batch: its obligation is
+    # "agrees with the model and satisfies the oracle outside the known classes"
+    corr_ok = corr_obl - len({f.what for f in failures
+                              if f.kind in ("correspondence", "oracle", "kernel_crosscheck") and not match_known(pid, f)})
     obligations += corr_obl + 2  # + translator + lint
     discharged += max(0, corr_ok) + (0 if any(f.kind == "translator" for f in failures) else 1) + \
         (0 if any(f.kind == "lint" for f in failures) else 1)
